@@ -28,7 +28,7 @@ Apply(e) ==
       [] e.ev = "cancel"  -> PCancel(e.id)
       [] e.ev = "quiet"   -> PQuiet(SeqToSet(e.blk))
       [] e.ev = "probe"   -> PProbe(e.ok)
-      [] e.ev \in {"leak", "note", "end"} -> UNCHANGED pvars
+      [] e.ev \in {"leak", "note", "end", "teardown", "step"} -> UNCHANGED pvars
       [] OTHER            -> /\ bad' = bad \cup {"Unexplained"}
                              /\ UNCHANGED <<st, md, ahead, canc, rels, relin>>
 
